@@ -1,6 +1,6 @@
 (* Pins the C44 statements and prints what they depend on. Compiled on every run. *)
 From Coq Require Import List ZArith NArith Bool.
-From VP Require Import Codec.Model Codec.Proofs Codec.ProofsApi Codec.Props.
+From VP Require Import Codec.Model Codec.Proofs Codec.ProofsApi Codec.Props Codec.Gen_ApiArms Codec.PropsArms.
 Import ListNotations.
 Open Scope Z_scope.
 
@@ -20,6 +20,13 @@ Check (eq_refl : has_bigint (JObj [([1%N], JArr [JInt 9223372036854775808])]) = 
 Check (eq_refl : payload_wf (JObj [([1%N], JNull); ([1%N], JNull)]) = false).
 Check (eq_refl : json_to_value (JInt 18446744073709551615) = VFloat 4895412794951729152).
 
+Check (C44_arms_value_to_json : arms_value_to_json = expected_out_arms).
+Check (C44_arms_json_from_value : arms_json_from_value = expected_out_arms).
+Check (C44_arms_json_to_runtime_value : arms_json_to_runtime_value = expected_in_arms).
+
 Print Assumptions C44_roundtrip.
 Print Assumptions C44_bigint_refuted.
 Print Assumptions C44_bigint_always_float.
+Print Assumptions C44_arms_value_to_json.
+Print Assumptions C44_arms_json_from_value.
+Print Assumptions C44_arms_json_to_runtime_value.
